@@ -619,6 +619,90 @@ Proof.
   eexists. split; [vm_compute; reflexivity|]. split; reflexivity.
 Qed.
 
+(* ------------------------------------------------------------------ conservative extension *)
+
+(* without fault events the extended system IS the system of C01/C04: on states without
+   cancellation / prologue failure / dangling readers, [Ev e] is accepted exactly when
+   CopySpec accepts e, with the same successor state *)
+Definition plain (fs : fstate) : Prop :=
+  f_cancelled fs = false /\ f_aborted fs = false /\ f_rd fs = [].
+
+Lemma forallb_no_dead (g : graph) st :
+  forallb (fun n => is_idle_or_done (ph st n)) (seq 0 (g_n g)) = true -> any_dead g st = false.
+Proof.
+  intro H. unfold any_dead. apply Bool.not_true_is_false. intro Hd.
+  apply existsb_exists in Hd as [n [Hin Hn]]. rewrite forallb_forall in H. specialize (H n Hin).
+  destruct (ph st n); simpl in *; congruence.
+Qed.
+
+Lemma fstep_conservative (g : graph) (c : cfg) fs e : plain fs ->
+  match step g c (fb fs) e with
+  | Some st' => exists fs', fstep g c false fs (Ev e) = Some fs' /\ fb fs' = st' /\ plain fs'
+  | None => fstep g c false fs (Ev e) = None
+  end.
+Proof.
+  intros [Hc [Ha Hr]].
+  assert (Ht : tainted g fs = any_dead g (fb fs)) by (unfold tainted; now rewrite Hc, Ha).
+  unfold fstep. unfold step at 1.
+  destruct (returned (fb fs)) eqn:Hret; [destruct e; reflexivity|].
+  destruct e;
+    try (rewrite Ha; cbv iota beta;
+         match goal with |- match ?x with _ => _ end =>
+           destruct x eqn:Hs end;
+         [ eexists; split; [unfold step; rewrite Hret; rewrite Hs; reflexivity|];
+           split; [reflexivity | repeat split; assumption]
+         | unfold step; rewrite Hret; rewrite Hs; reflexivity ]).
+  - (* SFC *)
+    rewrite Ha. cbv iota beta.
+    destruct (is_dead (ph (fb fs) n)) eqn:Hd.
+    + rewrite Hr. simpl. destruct (ph (fb fs) n); simpl in Hd; try discriminate. reflexivity.
+    + match goal with |- match ?x with _ => _ end => destruct x eqn:Hs end.
+      * eexists. split; [unfold step; rewrite Hret; rewrite Hs; reflexivity|].
+        split; [reflexivity | repeat split; assumption].
+      * unfold step. rewrite Hret. rewrite Hs. reflexivity.
+  - (* Ret *)
+    destruct ok.
+    + unfold ret_ok_guard.
+      destruct (is_done (ph (fb fs) (c_root c)) &&
+                forallb (fun n => is_idle_or_done (ph (fb fs) n)) (seq 0 (g_n g))) eqn:Hg.
+      * apply andb_true_iff in Hg as [_ Hf]. rewrite Ht, (forallb_no_dead g _ Hf). simpl.
+        eexists. split; [reflexivity|]. split; [reflexivity | repeat split; assumption].
+      * now rewrite andb_false_r.
+    + rewrite Ht. unfold any_dead.
+      destruct (existsb (fun n => is_dead (ph (fb fs) n)) (seq 0 (g_n g))).
+      * eexists. split; [reflexivity|]. split; [reflexivity | repeat split; assumption].
+      * reflexivity.
+Qed.
+
+Lemma frun_conservative (g : graph) (c : cfg) tr : forall fs, plain fs ->
+  match run g c (fb fs) tr with
+  | Some st' => exists fs', frun g c false fs (map Ev tr) = Some fs' /\ fb fs' = st' /\ plain fs'
+  | None => frun g c false fs (map Ev tr) = None
+  end.
+Proof.
+  induction tr as [|e tr IH]; intros fs Hp; simpl.
+  - eauto.
+  - pose proof (fstep_conservative g c fs e Hp) as H.
+    destruct (step g c (fb fs) e) as [st1|] eqn:E.
+    + destruct H as [fs1 [H1 [H2 H3]]]. rewrite H1. subst st1. now apply IH.
+    + now rewrite H.
+Qed.
+
+Lemma faccepts_conservative (g : graph) (c : cfg) (d0 : list node) tr :
+  match accepts g c d0 tr with
+  | Some st => exists fs, faccepts g c false d0 (map Ev tr) = Some fs /\ fb fs = st
+  | None => faccepts g c false d0 (map Ev tr) = None
+  end.
+Proof.
+  unfold accepts, faccepts.
+  pose proof (frun_conservative g c tr (finit c false d0)) as H.
+  assert (Hp : plain (finit c false d0)) by (repeat split; reflexivity).
+  specialize (H Hp). cbn [finit fb] in H.
+  destruct (run g c (init c d0) tr) as [st|].
+  - destruct H as [fs [H1 [H2 _]]]. eauto.
+  - exact H.
+Qed.
+
 (* the acceptor is sensitive to the two mechanisms the property is about:
    (a) on g_sh the push of C = 0 fails (nothing stored) while D = 1 is in flight; then B = 3,
        whose only successor is C, goes on to PreCopy as if C were done: rejected at that event
